@@ -1320,6 +1320,109 @@ theorem singleVia_error {c : Config α} {g : List α} (hf : c.fwd.AdjConsistent)
         exact Or.inr (Or.inr (svLoop_error T _ _ _ _ _ (fun p hp => mem_interQueue hp) hk'))
       · cases h
 
+/-! ### similarity: rank, decision, totality -/
+
+section similarity
+variable [HasSqrt α]
+
+theorem distsOf_ok {dist : Nat → Except ErrKind α} :
+    ∀ (es : List Nat), (∀ e ∈ es, ∃ d, dist e = .ok d) → ∃ m, distsOf dist es = .ok m
+  | [], _ => ⟨[], rfl⟩
+  | e :: es, h => by
+    obtain ⟨d, hd⟩ := h e List.mem_cons_self
+    obtain ⟨m, hm⟩ := distsOf_ok es (fun e' he' => h e' (List.mem_cons_of_mem _ he'))
+    exact ⟨(e, d) :: m, by simp [distsOf, hd, hm]⟩
+
+theorem distsOf_error {dist : Nat → Except ErrKind α} {k : ErrKind} :
+    ∀ {es : List Nat}, distsOf dist es = .error k → ∃ e ∈ es, dist e = .error k
+  | [], h => by cases h
+  | e :: es, h => by
+    unfold distsOf at h
+    split at h
+    · rename_i k' hk'; cases h; exact ⟨e, List.mem_cons_self, hk'⟩
+    · split at h
+      · rename_i k' hk'
+        cases h
+        obtain ⟨e', he', h'⟩ := distsOf_error hk'
+        exact ⟨e', List.mem_cons_of_mem _ he', h'⟩
+      · cases h
+
+/-- the cosine of two routes is computed whenever every edge has a weight -/
+theorem cosSimilarity_ok {dist : Nat → Except ErrKind α} {a b : List Nat}
+    (h : ∀ e ∈ a ++ b, ∃ d, dist e = .ok d) : ∃ r, cosSimilarity dist a b = .ok r := by
+  obtain ⟨am, ham⟩ := distsOf_ok a (fun e he => h e (List.mem_append_left _ he))
+  obtain ⟨bm, hbm⟩ := distsOf_ok b (fun e he => h e (List.mem_append_right _ he))
+  unfold cosSimilarity
+  rw [ham, hbm]
+  exact ⟨_, rfl⟩
+
+theorem cosSimilarity_error {dist : Nat → Except ErrKind α} {a b : List Nat} {k : ErrKind}
+    (h : cosSimilarity dist a b = .error k) : ∃ e ∈ a ++ b, dist e = .error k := by
+  unfold cosSimilarity at h
+  split at h
+  · rename_i k' hk'
+    cases h
+    obtain ⟨e, he, h'⟩ := distsOf_error hk'
+    exact ⟨e, List.mem_append_left _ he, h'⟩
+  · split at h
+    · rename_i k' hk'
+      cases h
+      obtain ⟨e, he, h'⟩ := distsOf_error hk'
+      exact ⟨e, List.mem_append_right _ he, h'⟩
+    · cases h
+
+/-- `test_similarity` is `is_similar` of `rank_similarity` -/
+theorem SimFn.test_eq (f : SimFn α) (edges : List (EdgeRec α)) (a b : List Nat) :
+    f.test edges a b = (match f.rank edges a b with
+                        | .error k => .error k
+                        | .ok r => .ok (f.isSimilar r)) := by
+  cases f with
+  | acceptAll => rfl
+  | edgeIdCosine thr =>
+    simp only [SimFn.test, SimFn.rank, SimFn.isSimilar]
+    cases cosSimilarity (fun _ => Except.ok (one : α)) a b <;> rfl
+  | distanceWeightedCosine thr =>
+    simp only [SimFn.test, SimFn.rank, SimFn.isSimilar]
+    split <;> simp_all
+
+/-- the similarity functions never fail on routes whose edges are in the graph -/
+theorem SimFn.rank_ok (f : SimFn α) (edges : List (EdgeRec α)) {a b : List Nat}
+    (h : ∀ e ∈ a ++ b, ∃ er, edges[e]? = some er) : ∃ r, f.rank edges a b = .ok r := by
+  cases f with
+  | acceptAll => exact ⟨_, rfl⟩
+  | edgeIdCosine thr => exact cosSimilarity_ok (fun e _ => ⟨one, rfl⟩)
+  | distanceWeightedCosine thr =>
+    apply cosSimilarity_ok
+    intro e he
+    obtain ⟨er, her⟩ := h e he
+    exact ⟨er.dist, by simp [her]⟩
+
+theorem SimFn.test_ok (f : SimFn α) (edges : List (EdgeRec α)) {a b : List Nat}
+    (h : ∀ e ∈ a ++ b, ∃ er, edges[e]? = some er) : ∃ x, f.test edges a b = .ok x := by
+  obtain ⟨r, hr⟩ := SimFn.rank_ok f edges h
+  rw [SimFn.test_eq f, hr]
+  exact ⟨_, rfl⟩
+
+/-- they fail only on an edge id outside the graph, only for the distance-weighted variant, and then
+with the network error -/
+theorem SimFn.rank_error (f : SimFn α) (edges : List (EdgeRec α)) {a b : List Nat} {k : ErrKind}
+    (h : f.rank edges a b = .error k) :
+    k = .network ∧ (∃ thr, f = .distanceWeightedCosine thr) ∧ ∃ e ∈ a ++ b, edges[e]? = none := by
+  cases f with
+  | acceptAll => cases h
+  | edgeIdCosine thr =>
+    obtain ⟨e, _, he⟩ := cosSimilarity_error h
+    cases he
+  | distanceWeightedCosine thr =>
+    obtain ⟨e, hmem, he⟩ := cosSimilarity_error h
+    split at he
+    · cases he
+    · rename_i hnone
+      cases he
+      exact ⟨rfl, ⟨thr, rfl⟩, e, hmem, hnone⟩
+
+end similarity
+
 /-! ### Yen's algorithm (as repaired) -/
 
 section yen
